@@ -41,6 +41,12 @@ def IDENT(value):
     return value
 
 
+@modifiers.kwoargs('opt_')
+def KAPPLY(fn, opt_=None, *args, **kwargs):
+    """A shared forwarding helper whose signature is rewritten by a modifier."""
+    return fn(*args, **kwargs)
+
+
 class PARTIAL_SUBCLASS(functools.partial):
     """A partial object of a subclass of functools.partial."""
 
